@@ -225,8 +225,17 @@ fn wild_market(rng: &mut Rng) -> sdk::Market {
         *b = rng.next() as u8;
     }
     let mut m: sdk::Market = bytemuck::pod_read_unaligned(&bytes);
-    // pools: the is_pure byte is a bool for the program (0/1), anything else is not a state the program writes
-    for_each_pool(&mut m, |ps, rng| ps.pool.is_pure = rng.below(2) as u8, rng);
+    // "any account bytes": the is_pure byte of every pool is canonical (0 / 1) in two thirds of the pools and ANY
+    // byte otherwise (2..=255 are non-canonical: both readers must still agree); flag containers, paddings and
+    // reserved areas keep their fully random bytes
+    for_each_pool(&mut m, |ps, rng| {
+        ps.pool.is_pure = match rng.below(6) {
+            0 | 1 => 0,
+            2 | 3 => 1,
+            4 => 2 + rng.below(254) as u8,
+            _ => *rng.pick(&[2u8, 3, 0x80, 0xFE, 0xFF]),
+        }
+    }, rng);
     // type limits of the pool amounts, in pure and impure pools
     for_each_pool(&mut m, |ps, rng| {
         if rng.chance(1, 5) {
